@@ -161,6 +161,17 @@ func c09GenSelections(r *ev.Rand, dims, chunk []uint64, n int) []c09Sel {
 				s.Count[i], span = 1, block
 			}
 			s.Start[i] = uint64(r.Intn(int(d-span) + 1))
+			// a single block may be wider than the stride (the stride separates blocks, and
+			// there is only one): valid in HDF5, and a different code path in the reader
+			if useBlock && r.Chance(1, 5) && d >= 2 {
+				blk := uint64(r.Range(2, int(d)))
+				s.Count[i], s.Block[i] = 1, blk
+				s.Stride[i] = uint64(r.Range(1, int(blk)))
+				s.Start[i] = uint64(r.Intn(int(d-blk) + 1))
+				if !strings.Contains(s.Kind, "single-wide-block") {
+					s.Kind += "+single-wide-block"
+				}
+			}
 		}
 		out = append(out, s)
 	}
@@ -636,7 +647,7 @@ var C09 = &ev.Property{
 		"distinct = dataset descriptor (layout, dims, chunk, type) or corpus dataset path; every dataset with a successful full read is non-trivial.",
 	Assumptions: []string{
 		"the dataset's own full Read is the reference (its correctness is decided by C01/C06)",
-		"valid selections keep block <= stride (non-overlapping blocks, as in HDF5)",
+		"valid selections keep block <= stride when there is more than one block (non-overlapping blocks, as in HDF5); a single block may be wider than the stride",
 	},
 	Cases: func(tier string) int {
 		corpusInit()
